@@ -30,10 +30,10 @@ func init() { runners["C10"] = runC10 }
 
 // ---- independent recomputation of the identities (never through the keeper)
 
-func c10Owner(path, user string) string  { return hexsha("o" + path + user) }
-func c10Viewer(tn, user string) string   { return hexsha("v" + tn + user) }
-func c10Editor(tn, user string) string   { return hexsha("e" + tn + user) }
-func c10Key(a, o string) string          { return a + "/" + o + "/" }
+func c10Owner(path, user string) string { return hexsha("o" + path + user) }
+func c10Viewer(tn, user string) string  { return hexsha("v" + tn + user) }
+func c10Editor(tn, user string) string  { return hexsha("e" + tn + user) }
+func c10Key(a, o string) string         { return a + "/" + o + "/" }
 func c10IsOwner(f fttypes.Files, user string) bool {
 	return c10Owner(f.Address, hexsha(user)) == f.Owner
 }
@@ -43,6 +43,7 @@ func c10AclAddr(kind, tn, user string) string {
 	}
 	return c10Editor(tn, user)
 }
+
 // c10Parse: json.Unmarshal into a fresh map exactly like the keeper; the result is the NIL map
 // for the JSON text null
 func c10Parse(s string) (map[string]string, bool) {
